@@ -128,6 +128,46 @@ func (c c05Case) runFile(viol func(sig, detail string), r *core.Run) {
 			viol("over-fetch "+mode+" "+c.File.Writer, fmt.Sprintf("%s [%d,%d): requested %s; not intersecting the range: %s", c, a, b, shortList(s.Reads()), shortList(x)))
 		}
 	}
+	// two requests on ONE reader: read [a,b), then seek to c and read [c,d).
+	// What the second request fetches must again be only what [c,d) needs
+	// (a reader that walks or discards the gap would fetch the blocks between).
+	if L >= 4 && L <= 14 {
+		for a := int64(0); a < L; a++ {
+			for b := a + 1; b <= L; b++ {
+				for c2 := int64(0); c2 < L; c2++ {
+					for d := c2 + 1; d <= L; d++ {
+						if (b-a > 2 && b != L) || (d-c2 > 2 && d != L) {
+							continue // first/second request: 1-2 bytes or up to the end
+						}
+						rs, _ := lb.AsLargeBytes()
+						buf := make([]byte, b-a)
+						if _, err := rs.Seek(a, io.SeekStart); err != nil {
+							continue
+						}
+						if _, err := io.ReadFull(rs, buf); err != nil {
+							continue
+						}
+						s.ResetLogs()
+						buf2 := make([]byte, d-c2)
+						_, err := rs.Seek(c2-b, io.SeekCurrent)
+						if err == nil {
+							_, err = io.ReadFull(rs, buf2)
+						}
+						if r != nil {
+							r.Transitions.Add(1)
+						}
+						if err != nil || !bytes.Equal(buf2, content[c2:d]) {
+							viol("range-bytes second-request", fmt.Sprintf("%s [%d,%d) then [%d,%d): err=%v got %s want %s", c, a, b, c2, d, err, clip(buf2, 16), clip(content[c2:d], 16)))
+							continue
+						}
+						if x := extraReads(s.Reads(), tree.Needed(c2, d)); len(x) > 0 {
+							viol("over-fetch second-request "+c.File.Writer, fmt.Sprintf("%s: after reading [%d,%d), Seek(%+d,Current)+read of [%d,%d) requested %s; not intersecting the range: %s", c, a, b, c2-b, c2, d, shortList(s.Reads()), shortList(x)))
+						}
+					}
+				}
+			}
+		}
+	}
 	ssb := sb.NewSelectorSpecBuilder(basicnode.Prototype.Any)
 	for a := int64(0); a < L; a++ {
 		for b := a + 1; b <= L; b++ {
@@ -252,7 +292,7 @@ func (c c05Case) runShard(viol func(sig, detail string), r *core.Run) {
 }
 
 func runC05(r *core.Run) {
-	r.Rule("bounded-exhaustive: every range 0<=a<b<=L of every file shape (w in {2,3}, chunk 3; this builder + reference writers) via Seek+ReadFull, end-relative positioning and a subset-matcher traversal; every member/non-member lookup on every sharded directory of the universe subsets (cold and warm cache); every path of every small tree; oracle: requested links ⊆ blocks whose span intersects the range + ancestors / shards on the hash path / blocks on the path (independent model over stored blocks)")
+	r.Rule("bounded-exhaustive: every range 0<=a<b<=L of every file shape (w in {2,3}, chunk 3; this builder + reference writers) via Seek+ReadFull, end-relative positioning and a subset-matcher traversal; every pair of short requests [a,b) then [c,d) on one reader (second request positioned with a relative seek); every member/non-member lookup on every sharded directory of the universe subsets (cold and warm cache); every path of every small tree; oracle: requested links ⊆ blocks whose span intersects the range + ancestors / shards on the hash path / blocks on the path (independent model over stored blocks)")
 	r.Assume("file DAGs are those produced by the two writers (interior nodes carry BlockSizes)")
 	var cases []c05Case
 	var files []fileCase
